@@ -324,7 +324,10 @@ func (g *G) syntax1(depth int) *Expr {
 	e := &Expr{Op: "map"}
 	seen := map[string]bool{}
 	for i, n := 0, g.Intn(4); i < n; i++ {
-		k := g.Pick("a", "b", "key", "it's", "q\"uote", "back\\slash", "", "new\nline", "é", "a b")
+		k := g.Pick("a", "b", "key", "it's", "q\"uote", "back\\slash", "", "new\nline", "é", "a b", "A", "\\w+", "'q'", "\nfirst", "\\", "\ttab", "\"dq", "\r", "\x01x")
+		if g.Chance(15) {
+			k = syntaxStrings[g.Intn(len(syntaxStrings))]
+		}
 		if seen[k] {
 			continue
 		}
